@@ -61,7 +61,7 @@ template <class T> static void ftest ()
                     cams.push_back ({r, {x, y, z}, sc, ft});
                 }
     }
-    std::atomic<ll> n_pl (0), n_pt_in (0), n_pt_out (0), n_pt_margin (0), n_pt_on (0), n_sv (0), n_sc (0), n_bv (0), n_bc (0), n_obj_un (0), n_cam (0), n_ftcam (0), done (0);
+    std::atomic<ll> n_pl (0), n_pt_in (0), n_pt_out (0), n_pt_margin (0), n_pt_on (0), n_sv (0), n_sc (0), n_bv (0), n_bc (0), n_obj_un (0), n_cam (0), n_ftcam (0), n_aniso (0), done (0);
     std::mutex mm; double w_pl = 0;
     bool ok = parallel_chunks (FS.size (), 1, [&] (uint64_t lo, uint64_t hi, unsigned) {
         for (uint64_t fi = lo; fi < hi; ++fi)
@@ -70,7 +70,7 @@ template <class T> static void ftest ()
             Frustum<T>   fr = F.make<T> ();
             const Ideal  I  = ideal (F);
             const auto   G  = grid (F);
-            ll k_pl = 0, k_in = 0, k_out = 0, k_mg = 0, k_on = 0, k_sv = 0, k_sc = 0, k_bv = 0, k_bc = 0, k_un = 0, k_cam = 0, k_ft = 0; double lw = 0;
+            ll k_pl = 0, k_in = 0, k_out = 0, k_mg = 0, k_on = 0, k_sv = 0, k_sc = 0, k_bv = 0, k_bc = 0, k_un = 0, k_cam = 0, k_ft = 0, k_aniso = 0; double lw = 0;
             // per-plane camera-space constants for the margin
             LD Sdef[6], hmin[6]; L3 X0[6];
             for (int i = 0; i < 6; ++i)
@@ -111,6 +111,47 @@ template <class T> static void ftest ()
                     if (fabsl (d.x) < objs[o].hx * 0.999L && fabsl (d.y) < objs[o].hy * 0.999L && fabsl (d.z) < objs[o].hz * 0.999L) wit_b[o].push_back ((int) g);
                 }
 
+            // ---------------- planes(M) == planes() * M, also for NON-UNIFORMLY scaled and sheared affine matrices
+            // (planes(M) transforms the corner points, planes()*M transforms each plane: both must describe the plane
+            // through the transformed defining points, whatever the linear part of M is)
+            {
+                Plane3<T> P0[6];
+                fr.planes (P0);
+                static const double LIN[4][9] = {{1, 0, 0, 0, 2, 0, 0, 0, 4}, {2, 0, 0, 0, 0.5, 0, 0, 0, 1}, {1, 0.5, 0, 0, 1, 0, 0.25, 0, 1}, {1, 0, 0, 1, 2, 0, 0, -0.5, 1}};
+                for (int li = 0; li < 4; ++li)
+                    for (int ri = 0; ri < 24; ri += 5)
+                    {
+                        const auto& Rm = RT[ri];
+                        LD A[3][3];
+                        for (int r = 0; r < 3; ++r) for (int c = 0; c < 3; ++c) { A[r][c] = 0; for (int k = 0; k < 3; ++k) A[r][c] += (LD) LIN[li][r * 3 + k] * Rm[k * 3 + c]; }
+                        const L3 tr = {1, -2, 3};
+                        Matrix44<T> M;
+                        for (int r = 0; r < 3; ++r) for (int c = 0; c < 3; ++c) M[r][c] = (T) A[r][c];
+                        M[3][0] = (T) tr.x; M[3][1] = (T) tr.y; M[3][2] = (T) tr.z;
+                        auto fwdA = [&] (const L3& p) { return L3{p.x * A[0][0] + p.y * A[1][0] + p.z * A[2][0] + tr.x, p.x * A[0][1] + p.y * A[1][1] + p.z * A[2][1] + tr.y, p.x * A[0][2] + p.y * A[1][2] + p.z * A[2][2] + tr.z}; };
+                        Plane3<T> PM[6];
+                        fr.planes (PM, M);
+                        for (int i = 0; i < 6; ++i)
+                        {
+                            Plane3<T> Q = P0[i] * M;
+                            ++k_pl; ++k_aniso;
+                            LD S = 1;
+                            for (int k = 0; k < 3; ++k) S = std::max (S, l1 (fwdA (I.pt (I.def[i][k]))) + 1);
+                            // anisotropy 4 and shear: allow the distortion factor kappa^2 = 16 on top of the affine bound
+                            const LD tolA = 16 * e * 16 * S * (1 + S / hmin[i]);
+                            for (int k = 0; k < 3; ++k)
+                            {
+                                L3 X = fwdA (I.pt (I.def[i][k]));
+                                LD d1 = dot (toL (PM[i].normal), X) - (LD) PM[i].distance, d2 = dot (toL (Q.normal), X) - (LD) Q.distance;
+                                char bf[200]; snprintf (bf, sizeof bf, " M: linear part #%d (non-uniform scale / shear) x cube rotation #%d, translation (1,-2,3), plane %d", li, ri, i);
+                                if (!(fabsl (d1) <= tolA)) R ().fail ("Frustum::planes(M).contains-transformed-points.non-uniform-M", std::string ("T=") + tname<T> () + " " + F.str () + bf, "0", s (d1));
+                                if (!(fabsl (d2) <= tolA)) R ().fail ("Frustum::planes()*M.contains-transformed-points.non-uniform-M", std::string ("T=") + tname<T> () + " " + F.str () + bf, "0", s (d2));
+                            }
+                            L3 dn = toL (PM[i].normal) - toL (Q.normal);
+                            if (!(linf (dn) <= tolA)) R ().fail ("Frustum::planes(M)=planes()*M.non-uniform-M", std::string ("T=") + tname<T> () + " " + F.str () + " linear part #" + std::to_string (li) + " plane " + std::to_string (i), s (toL (Q.normal)), s (toL (PM[i].normal)));
+                        }
+                    }
+            }
             std::vector<char> gin (G.size ());
             std::vector<L3>   gw (G.size ());
             for (const Cam& cm : cams)
@@ -242,7 +283,7 @@ template <class T> static void ftest ()
                     }
                 }
             }
-            n_pl += k_pl; n_pt_in += k_in; n_pt_out += k_out; n_pt_margin += k_mg; n_pt_on += k_on; n_sv += k_sv; n_sc += k_sc; n_bv += k_bv; n_bc += k_bc; n_obj_un += k_un; n_cam += k_cam; n_ftcam += k_ft;
+            n_pl += k_pl; n_pt_in += k_in; n_pt_out += k_out; n_pt_margin += k_mg; n_pt_on += k_on; n_sv += k_sv; n_sc += k_sc; n_bv += k_bv; n_bc += k_bc; n_obj_un += k_un; n_cam += k_cam; n_ftcam += k_ft; n_aniso += k_aniso;
             ++done;
             std::lock_guard<std::mutex> g (mm); w_pl = std::max (w_pl, lw);
         }
@@ -250,6 +291,7 @@ template <class T> static void ftest ()
     ll pts = n_pt_in + n_pt_out + n_pt_margin, objs = n_sv + n_sc + n_bv + n_bc;
     R ().add ("states", n_cam + pts + objs); R ().add ("evaluations", n_cam + pts + objs); R ().add ("transitions", n_pl.load () * 2 + pts + objs);
     R ().add ("frustum_camera_pairs", n_cam); R ().add ("frustum_camera_pairs_with_FrustumTest", n_ftcam);
+    R ().cls ("planes(M).non-uniformly-scaled-or-sheared-M", n_aniso);
     R ().add (std::string ("points_inside_margin_unconstrained.") + tname<T> (), n_pt_margin);
     R ().add (std::string ("objects_without_a_demand.") + tname<T> (), n_obj_un);
     R ().cls ("frustumtest.point-inside", n_pt_in); R ().cls ("frustumtest.point-outside", n_pt_out); R ().cls ("frustumtest.point-exactly-on-plane(exact sub-alphabet)", n_pt_on);
